@@ -484,8 +484,30 @@ _let_re = re.compile(r'^\s+let (?:mut )?_(\d+): (.*);$')
 _bb_re = re.compile(r'^    bb(\d+)(?: \(cleanup\))?: \{$')
 
 
+def _split_const_head(head):
+    """'NAME: TYPE' -> (name, type) splitting at the first ': ' outside brackets/angles"""
+    d = 0
+    ang = 0
+    for j, c in enumerate(head):
+        if c in OPEN:
+            d += 1
+        elif c in CLOSE:
+            d -= 1
+        elif c == '<':
+            ang += 1
+        elif c == '>' and ang > 0 and not (j > 0 and head[j - 1] in '-='):
+            ang -= 1
+        elif c == ':' and d == 0 and ang == 0 and head.startswith(': ', j) and not head.startswith('::', j) and (j == 0 or head[j - 1] != ':'):
+            return head[:j], head[j + 2:]
+    return head, ''
+
+
+CONSTS = {}
+
+
 def parse_file(path):
-    """returns list[Fn].  'MIR FOR CTFE' duplicates and promoted consts are skipped."""
+    """returns list[Fn].  'MIR FOR CTFE' duplicates are skipped.  `const`/`static` items are collected into
+    fn-like bodies too (name = item path, no params); simple `const X: T = const V;` become one-block bodies."""
     fns = []
     with open(path, encoding='utf-8', errors='replace') as f:
         lines = f.read().split('\n')
@@ -496,6 +518,34 @@ def parse_file(path):
         ln = lines[i]
         if ln.startswith('// MIR FOR CTFE'):
             skip_next_ctfe = True
+            i += 1
+            continue
+        if (ln.startswith('const ') or ln.startswith('static ')) and (ln.endswith(' = {') or ' = const ' in ln):
+            kw, rest = ln.split(' ', 1)
+            if rest.startswith('mut '):
+                rest = rest[4:]
+            if ln.endswith(' = {'):
+                head = rest[:-4]
+                j = i + 1
+                while j < n and lines[j] != '}':
+                    j += 1
+                name, ty = _split_const_head(head)
+                body = ['fn %s() -> %s {' % (name, ty)] + lines[i + 1:j + 1]
+                fn = _parse_fn(body, i + 1)
+                if fn is not None:
+                    fn.promoted = 'const'
+                    fns.append(fn)
+                i = j + 1
+                continue
+            head, val = rest.split(' = const ', 1)
+            name, ty = _split_const_head(head)
+            val = val.rstrip(';')
+            body = ['fn %s() -> %s {' % (name, ty), '    let mut _0: %s;' % ty, '    bb0: {', '        _0 = const %s;' % val,
+                    '        return;', '    }', '}']
+            fn = _parse_fn(body, i + 1)
+            if fn is not None:
+                fn.promoted = 'const'
+                fns.append(fn)
             i += 1
             continue
         if ln.startswith('fn ') and ln.endswith('{'):
@@ -554,6 +604,7 @@ def _parse_header(h):
 
 def _parse_fn(lines, start_line):
     fn = Fn()
+    fn.promoted = None
     fn.header = lines[0]
     try:
         fn.name, fn.params, fn.ret = _parse_header(lines[0])
